@@ -24,6 +24,7 @@ from fjverif import findings
 from fjverif.common import (EVIDENCE_DIR, PYTHON, REPLAY_DIR, REPO_ROOT, VERIF_ROOT, DEPS_DIR, jdump, seed_value)
 
 MAX_PARALLEL = int(os.environ.get('VERIF_JOBS', '16'))
+SHARD_RSS_LIMIT_MB = int(os.environ.get('VERIF_SHARD_RSS_MB', '12000'))
 
 
 def load_check(prop: str):
@@ -74,13 +75,35 @@ def run_shard_subprocess(prop: str, spec: Dict[str, Any], workdir: Path, index: 
     timeout = spec.get('timeout_s', 1500)
     started = time.time()
     cmd = [PYTHON, '-m', 'fjverif.worker', prop, str(spec_path), str(out_path), str(journal_path)]
-    try:
-        with open(log_path, 'wb') as log:
-            proc = subprocess.run(cmd, stdout=log, stderr=subprocess.STDOUT, env=env, timeout=timeout, cwd=str(VERIF_ROOT))
-        rc: Optional[int] = proc.returncode
-    except subprocess.TimeoutExpired:
-        rc = None
-    result: Dict[str, Any] = {'shard': index, 'rc': rc, 'wall_s': time.time() - started, 'workdir': str(workdir)}
+    # the worker runs under two budgets: wall-clock time and resident memory (a runaway allocation must end as an inconclusive
+    # shard with its journal, not as the kernel's OOM killer picking processes)
+    rc: Any = None
+    peak_mb = 0
+    with open(log_path, 'wb') as log:
+        proc = subprocess.Popen(cmd, stdout=log, stderr=subprocess.STDOUT, env=env, cwd=str(VERIF_ROOT))
+        while True:
+            try:
+                rc = proc.wait(timeout=0.5)
+                break
+            except subprocess.TimeoutExpired:
+                pass
+            if time.time() - started > timeout:
+                proc.kill()
+                proc.wait()
+                rc = None
+                break
+            try:
+                with open(f'/proc/{proc.pid}/status') as status:
+                    rss_mb = next((int(line.split()[1]) // 1024 for line in status if line.startswith('VmRSS:')), 0)
+            except OSError:
+                rss_mb = 0
+            peak_mb = max(peak_mb, rss_mb)
+            if rss_mb > SHARD_RSS_LIMIT_MB:
+                proc.kill()
+                proc.wait()
+                rc = 'memory'
+                break
+    result: Dict[str, Any] = {'shard': index, 'rc': rc, 'wall_s': time.time() - started, 'workdir': str(workdir), 'peak_rss_mb': peak_mb}
     if out_path.exists():
         with open(out_path) as f:
             result.update(json.load(f))
@@ -149,7 +172,8 @@ def conclude(prop: str, check: Any, tier: str, seed: int, specs: List[Dict[str, 
             if handled is not None:
                 violations.append(handled)
             else:
-                why = 'timed out' if res['rc'] is None else f'exited {res["rc"]} without a result'
+                why = 'timed out' if res['rc'] is None else f'exceeded the memory budget of {SHARD_RSS_LIMIT_MB} MB and was stopped' \
+                    if res['rc'] == 'memory' else f'exited {res["rc"]} without a result'
                 inconclusive.append(f'shard {res["shard"]} {why}: {res.get("log_tail", "")[-400:]!r}')
             continue
         merge_counters(merged, res.get('counters', {}))
